@@ -46,6 +46,12 @@ class UtilTask:
             res["status"], res["detail"] = "out-of-subset", str(e)
         except Exception as e:      # noqa
             res["status"], res["detail"] = "crash", "%s\n%s" % (e, traceback.format_exc())
+        if res["status"] != "ok" and "search" not in res:
+            from pyvc import driver
+            try:
+                res["search"] = driver.rt_call("pyvc.rt_eq", {"cmd": "search", "root": self.root, "which": self.which}, self.root)
+            except Exception as e:      # noqa
+                res["search"] = {"error": str(e)[-500:], "failures": []}
         res["wall_s"] = round(time.time() - t0, 3)
         return res
 
